@@ -7,7 +7,7 @@ From Coq Require Strings.String.
 Import Coq.Strings.String.StringSyntax.
 Delimit Scope string_scope with string.
 From HK Require Import Model.RBytes Model.PathClean Model.Bearer Model.PullAuthCompile
-     Proofs.BearerProofs Proofs.C11Examples.
+     Proofs.BearerProofs Proofs.BearerSessionProofs Proofs.C11Examples.
 Import ListNotations.
 Open Scope N_scope.
 
@@ -149,6 +149,25 @@ Theorem C11_example_override :
   st_of (pull "/pull/r1/dequeue" "Bearer r1-to") = (401, 10, 0%nat).
 Proof. exact (conj ex_route_token_ok (conj ex_global_on_override_route ex_prefix)). Qed.
 
+(** Whole sessions.  For every sequence of Pull, Worker and Admin requests over one store - authorized
+    and not, in any order - the final store, the sequence of store calls and the requests that reached
+    the Admin router are exactly those of the authorized requests alone: unauthorized traffic is
+    invisible to the queue wherever it is interleaved, and a session without an authorized request
+    leaves everything as it was. *)
+Theorem C11_session_ignores_unauthorized : forall (store : Type) run_op admin_router c reqs t,
+  session store run_op admin_router c reqs t =
+  session store run_op admin_router c (filter (authorized c) reqs) t.
+Proof. exact session_ignores_unauthorized. Qed.
+
+Theorem C11_session_all_unauthorized : forall (store : Type) run_op admin_router c reqs t,
+  Forall (fun r => authorized c r = false) reqs -> session store run_op admin_router c reqs t = t.
+Proof. exact session_all_unauthorized. Qed.
+
+Theorem C11_session_insert_unauthorized : forall (store : Type) run_op admin_router c pre r post t,
+  authorized c r = false ->
+  session store run_op admin_router c (pre ++ r :: post) t = session store run_op admin_router c (pre ++ post) t.
+Proof. exact session_insert_unauthorized. Qed.
+
 Print Assumptions C11_http_presented_shape.
 Print Assumptions C11_authorized_has_token.
 Print Assumptions C11_authorized_has_token_worker.
@@ -170,3 +189,6 @@ Print Assumptions C11_admin_routed_has_token.
 Print Assumptions C11_compiled_never_open.
 Print Assumptions C11_open_without_rule.
 Print Assumptions C11_example_override.
+Print Assumptions C11_session_ignores_unauthorized.
+Print Assumptions C11_session_all_unauthorized.
+Print Assumptions C11_session_insert_unauthorized.
